@@ -27,6 +27,40 @@ add("C11", "vcheck", "exploration", MB,
     "Histories mixing indexed/non-indexed value changes, cascades, index create/remove, failing queries and rolled-back transactions; after every step every indexed key is probed with every pool value and every present value and compared as a multiset with the model, plus the index listing counts.",
     "Trusted: the reference model; index search results compared as multisets (order undocumented).", "DESIGN 3/C11")
 
+MM = "metamorphic property testing (proptest): generated histories and inputs, the same database observed before/after an operation that must not change it"
+DIFF = "differential property testing (proptest): generated histories executed in lock-step on all storage variants, results compared exactly"
+RT = "round-trip property testing (proptest) over generated values with boundary-weighted generators plus an exhaustive length grid"
+add("C05", "vcheck", "exploration", MM,
+    "Generated histories on Db, DbFile and DbMemory followed by generated sequences of maintenance operations (reopen same/other variant, optimize_storage, shrink_to_fit, backup+open, copy, rename), two rounds with more queries in between; the exact canonical dump plus the result order of bfs/dfs from/to from every element must be identical before and after every operation, and all later steps must still conform to the reference model.",
+    "Trusted: the canonical dump reads everything a query can observe (ids, endpoints, property order, edge order, aliases, index contents, search orders); the reference model for the steps after maintenance.", "DESIGN 3/C05")
+add("C06", "vcheck", "exploration", DIFF,
+    "Generated histories incl. reads, failing queries and rolled-back transactions executed side by side on DbMemory, DbFile, Db and the three DbAny kinds; every query must return the same Ok(QueryResult) or fail on all six; final extended dumps equal.",
+    "Only success/failure and results decide (as the property states); error texts are not compared. DbMemory is the reference side of the comparison.", "DESIGN 3/C06")
+add("C12", "vcheck", "exploration", RT,
+    "Pairs (key, value) from the full nine-type value strategy with heavy mass on the 15/16-byte inline boundary, unicode, extreme integers and float bit patterns, stored on every variant and read back bit for bit directly, after reopen (same and other file variant) and after backup+reload; thorough adds the exhaustive 0..40 length grid x character widths.",
+    "Floats are compared by bit pattern. Keys within one element are distinct.", "DESIGN 3/C12")
+add("C13", "vcheck", "exploration", MB,
+    "A generated prefix, then one failing unit (transaction aborted after every possible k, transaction hitting a failing query, single query constructed to fail part-way), then a suffix: order-insensitive dump before == after the failed unit and the suffix conforms to the model that never saw it.",
+    "Trusted: reference model; property order within an element and edge order within a node are exempt as the property states. Ids handed out afterwards are adopted, not predicted.", "DESIGN 3/C13")
+add("C14", "vcheck", "exploration", "small-scope exhaustive enumeration + proptest random graphs against a reference BFS/DFS",
+    "Exhaustive: every multigraph with <=3 nodes and <=3 (thorough <=4, plus 4 nodes <=3) edges as edge-insertion sequences x every origin (node or edge) x {bfs,dfs} x {from,to}; random: graphs built by generated histories with removals and id reuse. The result sequence must equal the reference traversal exactly.",
+    "Trusted: the reference traversal (textbook BFS / pre-order DFS over the element graph, newest connection first). Exhaustive only within the stated scope.", "DESIGN 3/C14")
+add("C15", "vcheck", "exploration", "property testing (proptest): generated condition trees evaluated against a reference evaluator written from the documented truth tables",
+    "Random property-bearing multigraphs with mixed value types under the same keys x random condition trees (every condition kind, modifier, logic operator and comparison) x bfs/dfs from/to and elements search; exact result sequence compared with reference evaluator + reference traversal.",
+    "Trusted: the reference evaluator. Where the documentation does not tabulate a behaviour (at which distances each distance() comparison prunes; selection-neutrality of beyond/not_beyond under 'or') the reference adopts the behaviour pinned by the repository's own tests, so changes there are detected only as changes, not judged. distance() is not generated for elements searches.", "DESIGN 3/C15, appendix C")
+add("C16", "vcheck", "exploration", "metamorphic property testing (proptest): sliced/ordered search vs slice/stable sort of the unsliced search",
+    "Random searches (bfs/dfs from/to, path, elements, with conditions) x offset and limit in 0..n+3 x 0-3 order_by keys over keys with mixed presence and types: R(O,L) must equal the slice of R(0,0), the ordered result must equal the reference stable sort with missing keys last, never an error or panic (panics are caught and reported).",
+    "Trusted: DbValue's public Ord for comparing values of a sort key; the reference model's property values (validated by the dump comparison at the end of each graph history).", "DESIGN 3/C16")
+add("C17", "vcheck", "exploration", "small-scope exhaustive enumeration + proptest random graphs against a reference Dijkstra with a validity oracle",
+    "Exhaustive 3-node multigraphs with <=3 (thorough <=4) edges x all endpoint pairs x 3 condition sets, plus random graphs, endpoints (nodes, edges, missing, aliases, equal) and condition sets without distance(). The result must be empty exactly when no usable path exists / an endpoint is not a node / origin == destination; otherwise it must be the selected elements of some path whose cost equals the reference minimum.",
+    "Validity, not one expected answer: several optimal paths may exist. Conditions using distance() are excluded (element cost would be position dependent). For an endpoint id that does not exist either an error or an empty result is accepted.", "DESIGN 3/C17")
+add("C18", "vcheck", "exploration", MB,
+    "Histories with heavy removal and id reuse, then elements searches with and without conditions, limits and offsets: result must equal the model's live elements in increasing |id|, filtered and sliced; never a removed element.",
+    "Trusted: reference model and evaluator; distance() is not generated for elements searches (undocumented there).", "DESIGN 3/C18")
+add("C19", "vcheck", "exploration", "property testing (proptest) of long insert/remove cycle histories with a deterministic work-budget oracle",
+    "Long histories of insert/remove cycles over 1..300 distinct aliases and indexed values (crossing the 64-slot minimum capacity and all rehash thresholds) on a StorageData wrapper that counts storage calls: a query exceeding 10^6 calls (largest legitimate one < 10^4) is reported as non-terminating.",
+    "Non-termination is decided by a work budget on storage calls, which every probe loop performs; a loop that touches no storage would only be caught by the outer watchdog (undecided, not a violation).", "DESIGN 3/C19")
+
 TITLES = {}
 for l in open("/verif/properties.jsonl"):
     pr = json.loads(l)
